@@ -5,6 +5,7 @@ package agree with the model (Iota/Model/Bech32.lean) the theorems are about.
 import Iota.Gen.Bech32
 import Iota.Tie.Expect
 import Iota.Model.Bech32
+import Iota.Tie.Bech32Code
 
 namespace Iota.Tie.Bech32
 open Iota
@@ -50,15 +51,11 @@ theorem src :
     Gen.Bech32.src_bech32_newEncoding = Expect.Bech32_src_bech32_newEncoding ∧
     Gen.Bech32.src_bech32_encoding_encode = Expect.Bech32_src_bech32_encoding_encode ∧
     Gen.Bech32.src_bech32_encoding_decode = Expect.Bech32_src_bech32_encoding_decode ∧
-    Gen.Bech32.src_bech32_bech32CreateChecksum = Expect.Bech32_src_bech32_bech32CreateChecksum ∧
-    Gen.Bech32.src_bech32_bech32Polymod = Expect.Bech32_src_bech32_bech32Polymod ∧
-    Gen.Bech32.src_bech32_bech32HrpExpand = Expect.Bech32_src_bech32_bech32HrpExpand ∧
-    Gen.Bech32.src_bech32_bech32VerifyChecksum = Expect.Bech32_src_bech32_bech32VerifyChecksum ∧
     Gen.Bech32.src_base32_Encode = Expect.Bech32_src_base32_Encode ∧
     Gen.Bech32.src_base32_Decode = Expect.Bech32_src_base32_Decode ∧
     Gen.Bech32.src_base32_EncodedLen = Expect.Bech32_src_base32_EncodedLen ∧
     Gen.Bech32.src_base32_DecodedLen = Expect.Bech32_src_base32_DecodedLen :=
-  ⟨rfl, rfl, rfl, rfl, rfl, rfl, rfl, rfl, rfl, rfl, rfl, rfl, rfl, rfl, rfl, rfl, rfl⟩
+  ⟨rfl, rfl, rfl, rfl, rfl, rfl, rfl, rfl, rfl, rfl, rfl, rfl, rfl⟩
 
 /-- everything else the package declares (imports, constants, types, variables, build constraints and the functions not
 pinned one by one) is unchanged too: no declaration of the modelled packages can change without a tie theorem failing. -/
@@ -66,5 +63,22 @@ theorem rest :
     Gen.Bech32.rest_base32 = Expect.Bech32_rest_base32 ∧
     Gen.Bech32.rest_bech32 = Expect.Bech32_rest_bech32 :=
   ⟨rfl, rfl⟩
+
+/-! ### checksum.go translated AS CODE (loops included) = the model, for all inputs
+`Gen.Bech32.bech32Polymod` etc. are regenerated from the Go source on every run by the loop translator
+(go/cmd/extract/loops*.go: Go `int` as 64-bit two's complement `BitVec 64`, slices as lists); the proofs are in
+`Iota/Tie/Bech32Code.lean`.  `bv` is the bijection `List UInt8 ≃ List (BitVec 8)`. -/
+open Iota.Tie.Bech32Code in
+theorem code_hrpExpand (s : List UInt8) : Gen.Bech32.bech32HrpExpand (bv s) = bv (Bech32.hrpExpand s) := hrpExpand_eq s
+open Iota.Tie.Bech32Code in
+theorem code_polymod (values : List UInt8) :
+    (Gen.Bech32.bech32Polymod (bv values)).toNat = Bech32.polymod values ∧
+    (Gen.Bech32.bech32Polymod (bv values)).toNat < 2 ^ 30 := ⟨polymod_toNat values, polymod_lt values⟩
+open Iota.Tie.Bech32Code in
+theorem code_createChecksum (hrp blocks : List UInt8) :
+    Gen.Bech32.bech32CreateChecksum (bv hrp) (bv blocks) = bv (Bech32.createChecksum hrp blocks) := createChecksum_eq hrp blocks
+open Iota.Tie.Bech32Code in
+theorem code_verifyChecksum (hrp data : List UInt8) :
+    Gen.Bech32.bech32VerifyChecksum (bv hrp) (bv data) = Bech32.verifyChecksum hrp data := verifyChecksum_eq hrp data
 
 end Iota.Tie.Bech32
